@@ -1,8 +1,23 @@
 (* RunC15.v -- runner for C15.  Case:
      (case <enc> <cmap> (texts <bytes>...) (probes (<code> <len>)...) <expect>)
    result = what harness/src/bin/c15.rs prints for the same case.  The head `case0` runs the model
-   of the pinned (pre-repair) code instead; it is used only to re-derive the recorded defects. *)
-From LV Require Import Base.Bytes Base.Sx Model.RangeMap Model.CMap Model.CMapParser.
+   of the pinned (pre-repair) code instead; it is used only to re-derive the recorded defects.
+
+   The renderer of Spec/CMapRender.v (the one the theorems of Proofs/CMapRenderProofs.v talk about)
+   is extracted with the runner:
+     (rendertext <layout> <secs>)                         -> x<hex of render layout secs>
+     (render <enc> <cmap> <texts> <probes> <expect> <layout> <secs>)
+        <cmap> was produced by `rendertext`; the runner renders again, refuses a text that is not
+        its own ((res render-differs)), checks the instance of the round-trip theorem on it
+        ((res roundtrip-differs) if cmap_stream does not return exactly <secs> and an empty rest)
+        and then answers like `case`; the harness treats `render` like `case`.
+   layout ::= (layout (pre W...) (gap0 (B...)...) (gap1 (B...)...) (brk (W...)...) (dict (W...)...) <n> (secs SEC...) (post W...))
+   SEC ::= (sec (B...) (W...) (lines LINE...) (W...))
+   LINE ::= (line <bits> (B...) <bits> (B...) <0|1> (B...) (tgts ((B...) (U...))...) (B...) (W...))
+   U ::= (<bits> (S...))      B ::= s | t      S ::= B | cr | lf | crlf      W ::= S | (c <bytes> cr|lf|crlf)
+   <bits> = an atom of 0 / 1 (1 = upper case digit), "-" for none
+   secs ::= (secs (cs (lo hi len)...) | (bfchar (code len (u...))...) | (bfrange (lo hi len ((u...)...))...) ...) *)
+From LV Require Import Base.Bytes Base.Sx Model.RangeMap Model.CMap Model.CMapParser Spec.CMapRender.
 
 Definition sx_units (o : option (list N)) : sx :=
   match o with
@@ -39,7 +54,133 @@ Definition run_v0 (cm : cmap_v0) (texts : list bytes) (probes : list (N * N)) : 
 Definition err (c : String.string) : sx := SL [sx_id "res"; SL [sx_id "err"; SA (bs c)]].
 Arguments err _%string_scope.
 
-Definition run (x : sx) : sx :=
+(* ---------- decoding layouts and section lists ---------- *)
+Definition dec_blank (x : sx) : option blank :=
+  if is_id x "s" then Some Space else if is_id x "t" then Some Tab else None.
+Definition dec_eol (x : sx) : option eol :=
+  if is_id x "cr" then Some CR else if is_id x "lf" then Some LF else if is_id x "crlf" then Some CRLF else None.
+Definition dec_sitem (x : sx) : option sitem :=
+  match dec_blank x with Some b => Some (SBlank b) | None => option_map SEol (dec_eol x) end.
+Definition dec_witem (x : sx) : option witem :=
+  match x with
+  | SL [c; t; e] => if is_id c "c" then do t' <- as_bytes t; do e' <- dec_eol e; Some (WComment t' e') else None
+  | SL _ => None
+  | SA _ => match dec_blank x with Some b => Some (WBlank b) | None => option_map WEol (dec_eol x) end
+  end.
+Definition dec_list {A} (f : sx -> option A) (x : sx) : option (list A) :=
+  match x with SL l => omap f l | SA _ => None end.
+Definition dec_ne {A} (f : sx -> option A) (x : sx) : option (A * list A) :=
+  match dec_list f x with Some (a :: r) => Some (a, r) | _ => None end.
+Definition dec_bits (x : sx) : option (list bool) :=
+  match x with SA a => Some (map (fun c => byte_eqb c x31) a) | SL _ => None end.
+
+Definition dec_ulay (x : sx) : option ulay :=
+  match x with
+  | SL [b; g] => do b' <- dec_bits b; do g' <- dec_list dec_sitem g; Some (mkUlay b' g')
+  | _ => None
+  end.
+Definition dec_tgt (x : sx) : option (gap1 * tlay) :=
+  match x with
+  | SL [g; t] => do g' <- dec_ne dec_blank g; do t' <- dec_list dec_ulay t; Some (g', t')
+  | _ => None
+  end.
+Definition dec_line (x : sx) : option line_lay :=
+  match x with
+  | SL [_; c1; g1; c2; g2; br; op; tg; cl; en] =>
+    do c1' <- dec_bits c1; do g1' <- dec_list dec_blank g1; do c2' <- dec_bits c2; do g2' <- dec_list dec_blank g2;
+    do br' <- as_bool br; do op' <- dec_list dec_blank op; do tg' <- omap dec_tgt (args tg);
+    do cl' <- dec_list dec_blank cl; do en' <- dec_ne dec_witem en;
+    Some (mkLineLay c1' g1' c2' g2' br' op' tg' cl' en')
+  | _ => None
+  end.
+Definition dec_sec (x : sx) : option sec_lay :=
+  match x with
+  | SL [_; g; b; ls; e] =>
+    do g' <- dec_ne dec_blank g; do b' <- dec_ne dec_witem b; do ls' <- omap dec_line (args ls); do e' <- dec_ne dec_witem e;
+    Some (mkSecLay g' b' ls' e')
+  | _ => None
+  end.
+Definition dec_layout (x : sx) : option layout :=
+  match x with
+  | SL [_; pre; g0s; g1s; brks; dict; n; secs; post] =>
+    do pre' <- omap dec_witem (args pre); do g0' <- omap (dec_list dec_blank) (args g0s);
+    do g1' <- omap (dec_ne dec_blank) (args g1s); do br' <- omap (dec_ne dec_witem) (args brks);
+    do di' <- omap (dec_list dec_witem) (args dict); do n' <- as_N n; do se' <- omap dec_sec (args secs);
+    do po' <- omap dec_witem (args post);
+    Some (mkLayout pre' g0' g1' br' di' n' se' po')
+  | _ => None
+  end.
+
+Definition dec_units (x : sx) : option (list N) := dec_list as_N x.
+Definition dec_cs_line (x : sx) : option (N * N * N) :=
+  match x with SL [a; b; c] => do a' <- as_N a; do b' <- as_N b; do c' <- as_N c; Some (a', b', c') | _ => None end.
+Definition dec_bfchar_line (x : sx) : option ((N * N) * list N) :=
+  match x with SL [a; b; t] => do a' <- as_N a; do b' <- as_N b; do t' <- dec_units t; Some ((a', b'), t') | _ => None end.
+Definition dec_bfrange_line (x : sx) : option ((N * N * N) * list (list N)) :=
+  match x with
+  | SL [a; b; c; t] => do a' <- as_N a; do b' <- as_N b; do c' <- as_N c; do t' <- dec_list dec_units t; Some ((a', b', c'), t')
+  | _ => None
+  end.
+(* code lengths above 4 are refused here: be_digits is unary in the length *)
+Definition small_len (n : N) : bool := (n <=? 4)%N.
+Definition dec_section (x : sx) : option csection :=
+  match x with
+  | SL (h :: l) =>
+    if is_id h "cs" then do l' <- omap dec_cs_line l; if forallb (fun y => small_len (snd y)) l' then Some (CsRange l') else None
+    else if is_id h "bfchar" then do l' <- omap dec_bfchar_line l; if forallb (fun y => small_len (snd (fst y))) l' then Some (BfChar l') else None
+    else if is_id h "bfrange" then do l' <- omap dec_bfrange_line l; if forallb (fun y => small_len (snd (fst y))) l' then Some (BfRange l') else None
+    else None
+  | _ => None
+  end.
+Definition dec_secs (x : sx) : option (list csection) := omap dec_section (args x).
+
+(* ---------- equality of section lists ---------- *)
+Fixpoint list_eqb {A} (e : A -> A -> bool) (a b : list A) : bool :=
+  match a, b with
+  | [], [] => true
+  | x :: a', y :: b' => e x y && list_eqb e a' b'
+  | _, _ => false
+  end.
+Definition csection_eqb (a b : csection) : bool :=
+  match a, b with
+  | CsRange x, CsRange y =>
+    list_eqb (fun p q => (fst (fst p) =? fst (fst q))%N && (snd (fst p) =? snd (fst q))%N && (snd p =? snd q)%N) x y
+  | BfChar x, BfChar y =>
+    list_eqb (fun p q => (fst (fst p) =? fst (fst q))%N && (snd (fst p) =? snd (fst q))%N && listN_eqb (snd p) (snd q)) x y
+  | BfRange x, BfRange y =>
+    list_eqb (fun p q => (fst (fst (fst p)) =? fst (fst (fst q)))%N && (snd (fst (fst p)) =? snd (fst (fst q)))%N
+                         && (snd (fst p) =? snd (fst q))%N && listlistN_eqb (snd p) (snd q)) x y
+  | _, _ => false
+  end.
+
+(* the checks of a `render` case: the text is the renderer's own, and the parser model gives the
+   sections back *)
+Definition render_check (x : sx) (stream : bytes) : option sx :=
+  match x with
+  | SL (_ :: _ :: _ :: _ :: _ :: _ :: lay :: secs :: _) =>
+    match dec_layout lay, dec_secs secs with
+    | Some y, Some ss =>
+      if negb (bytes_eqb (render y ss) stream) then Some (SL [sx_id "res"; sx_id "render-differs"])
+      else match cmap_stream stream with
+           | POk ss' [] => if list_eqb csection_eqb ss ss' then None else Some (SL [sx_id "res"; sx_id "roundtrip-differs"])
+           | _ => Some (SL [sx_id "res"; sx_id "roundtrip-differs"])
+           end
+    | _, _ => Some (sx_id "badcase")
+    end
+  | _ => Some (sx_id "badcase")
+  end.
+
+Definition run_rendertext (x : sx) : sx :=
+  match x with
+  | SL [_; lay; secs] =>
+    match dec_layout lay, dec_secs secs with
+    | Some y, Some ss => sx_bytes (render y ss)
+    | _, _ => sx_id "badcase"
+    end
+  | _ => sx_id "badcase"
+  end.
+
+Definition run_case (x : sx) : sx :=
   match x with
   | SL (hd :: enc :: cm :: texts :: probes :: _) =>
     match as_bytes cm with
@@ -69,6 +210,23 @@ Definition run (x : sx) : sx :=
       | _ => SL [sx_id "res"; sx_id "notcmap"]
       end
     end
+  | _ => sx_id "badcase"
+  end.
+
+Definition run (x : sx) : sx :=
+  match x with
+  | SL (hd :: rest) =>
+    if is_id hd "rendertext" then run_rendertext x
+    else if is_id hd "render" then
+      match rest with
+      | _ :: cm :: _ =>
+        match as_bytes cm with
+        | Some stream => match render_check x stream with Some bad => bad | None => run_case x end
+        | None => sx_id "badcase"
+        end
+      | _ => sx_id "badcase"
+      end
+    else run_case x
   | _ => sx_id "badcase"
   end.
 
